@@ -732,7 +732,8 @@ def main():
     variants = []
     pv = [c for c in base_cases if c["op"] in PROT_OPS]
     for (p0, p1) in (("data", "data"), ("all", "format")):
-        for c in (pv if chk.thorough else rng.sample(pv, min(len(pv), 220))):
+        must = [c for c in pv if any(x.startswith("rmfile") for x in c["cmds"])][:40]      # RAW fields whose data file is missing: always
+        for c in (pv if chk.thorough else must + rng.sample(pv, min(len(pv), 200))):
             variants.append(dict(c, p0=p0, p1=p1, vkey="/protected", tag="[fragment 0 /PROTECT %s, fragment 1 /PROTECT %s] " % (p0, p1),
                                  cmds=[x for x in c["cmds"] if x.startswith(("rep ", "rmfile "))]))
     fv = [c for c in base_cases if c["op"] in ("move", "rename", "delete", "alter_raw", "alter_entry", "putdata64", "getdata64", "seek64", "alter_spec")
@@ -794,7 +795,7 @@ def main():
         elif rp.get("fl"):
             viol.setdefault(partial_key(c, rp) or "C10/flush-after-failed/%s/E%d%s" % (c["op"], rp["err"], c.get("vkey", "")), []).append(
                 (what, c, "all %d calls failed (error %d), yet a following gd_metaflush rewrote files of the dirfile: a failed call left a fragment marked modified" % (REPS, rp["err"])))
-        elif rp["nf"] == REPS and rp["probe"]:
+        elif rp["nf"] == REPS and rp["probe"] and c.get("vkey") != "/after-frameoffset":   # (there the probed field itself moved)
             viol.setdefault("C10/future/%s/E%d" % (c["op"], rp["err"]), []).append(
                 (what, c, "after the failing calls (error %d) a valid gd_getdata on another field fails" % rp["err"]))
     for key, l in sorted(viol.items()):
